@@ -77,6 +77,15 @@ def gen(rng, tier):
         sizes = [("arr", n) for n in (1, 2, 3, 4, 5, 7)] + [("marr", n) for n in (1, 2, 3, 4, 5, 7)] + [("marrd", n) for n in (1, 2, 3, 4, 5, 7)] + \
                 [("marr2", 4), ("marr2", 6), ("marrd2", 4), ("marrd2", 6), ("marrd3", 8)]
         for fam, n in sizes:
+            # vacuous / dogmatic / ordinary opinions that differ in exactly one cell of the belief, in the uncertainty
+            # only (ill-formed on purpose: == compares what is stored) or in exactly one base-rate cell
+            for kind in ("vac", "dog", "part"):
+                w = G.grid_opinion(rng, n, 64, kind)
+                a = list(w[0]) + [w[1]] + list(w[2])
+                for k in sorted({0, n - 1, n, n + 1, 2 * n}):
+                    b = list(a)
+                    b[k] = num.next_up(ty, b[k], 1) if rng.chance(1, 2) else num.rnd(ty, b[k] + 0.125)
+                    cases.append(dict(op="eqv", ty=ty, fam=fam, style="-", dims=[n], nums=a + b, kind="mul"))
             for i in range(max(4, nrand // 40)):
                 w = G.grid_opinion(rng, n, 64) if rng.chance(2, 3) else G.float_opinion(rng, ty, n, positive=False)
                 a = list(w[0]) + [w[1]] + list(w[2])
